@@ -180,7 +180,15 @@ func (s *Server) followHandleCommand(args []string, followc int, w io.Writer) (i
 	case "publish":
 		// Avoid writing these commands to the AOF
 	default:
-		if err := s.writeAOF(args, &d); err != nil {
+		dp := &d
+		if err != nil || !d.updated {
+			// The leader's log holds this command although it fails or
+			// changes nothing (an interrupted rewrite can leave such
+			// commands behind). It has to go into this log all the same:
+			// the two logs are compared by position and checksum.
+			dp = nil
+		}
+		if err := s.writeAOF(args, dp); err != nil {
 			return s.aofsz, err
 		}
 	}
